@@ -135,6 +135,14 @@ def first_diff(a, b, path="$"):
         return None
     return None if a == b else "%s: %r vs %r" % (path, a, b)
 
+def run_dl(dl, facts, out):
+    for attempt in range(30):
+        try:
+            return sf.run_dl(dl, facts, out, args=["-j1"])
+        except OSError:
+            time.sleep(2)
+    return sf.run_dl(dl, facts, out, args=["-j1"])
+
 def read_rows(path):
     if not os.path.exists(path):
         return None
@@ -208,7 +216,7 @@ def pipeline(d, text, repair_kinds, expect=(), cases=None, P=None):
             rd = os.path.join(d, "e%d" % k)
             facts = os.path.join(rd, "facts"); out = os.path.join(rd, "out")
             render.write_facts(P, case["edb"], facts)
-            o = sf.run_dl(qp, facts, out, args=["-j1"])
+            o = run_dl(qp, facts, out)
             if o.kind == "ok":
                 try:
                     sf.collect(P, out, o)
@@ -216,7 +224,7 @@ def pipeline(d, text, repair_kinds, expect=(), cases=None, P=None):
                     o.kind = "unparsable-output"; o.stderr += str(ex)
             bad = evalcore.compare(P, case, o)
             if bad:
-                o0 = sf.run_dl(src, facts, os.path.join(rd, "out0"), args=["-j1"])
+                o0 = run_dl(src, facts, os.path.join(rd, "out0"))
                 if o0.kind == "ok":
                     sf.collect(P, os.path.join(rd, "out0"), o0)
                 if evalcore.compare(P, case, o0):
